@@ -12,7 +12,7 @@ HARNESS = ["network/transport/v2/zz_verif_c07_test.go", "network/transport/v2/zz
 REQUIRED = ["safety_any_schedule", "unsolicited_responses_change_no_dag", "chunks_lossless", "stable_when_equal",
             "pull_round_result", "stuck_both_ways_same", "round_progress", "converges", "stable_after_convergence", "rounds_are_schedules", "range_reply_sorted_prefixclosed",
             "fact_constants", "fact_blockable", "fact_transaction_set_shape", "fact_transaction_list_shape", "fact_gossip_condition",
-            "fact_handled_envelopes", "fact_liveness_constants", "fact_dispatch_and_wiring"]
+            "fact_handled_envelopes", "fact_liveness_constants", "fact_dispatch_and_wiring", "chunks_fit_message_limit", "fact_chunk_accounting"]
 
 
 def scenario_slices(ops):
@@ -45,6 +45,8 @@ def evaluate(ctx, pid, out, test, required_kind, ops, impl):
             dc = j["histogram"]
         elif j.get("kind") == "leak":
             leaks.append(j["leak"])
+        elif j.get("kind") == "chunk":
+            continue
         else:
             verdicts.append(j)
     return header, slices, verdicts, leaks, dc
@@ -117,12 +119,30 @@ def run(ctx):
             problems.append(("C07:no-convergence-after-fair-suffix", f"after {v['rounds']} fair rounds (bound {v['max_rounds']}) nodes hold {v['not_union']} of the union"))
         if v.get("post_traffic", 0) > 0:
             problems.append(("C07:exchange-continues-after-convergence", f"{v['post_traffic']} non-gossip messages were sent in a gossip round after all XORs were equal"))
+        if v.get("oversize"):
+            problems.append(("C07:message-exceeds-grpc-limit", f"a message handed to the stream exceeds grpc.MaxMessageSizeInBytes (the real stream refuses it: "
+                             f"send error, the peer never gets the reply): {v['oversize'][:3]}"))
         for sig, what in problems:
             n_bad += 1
             per_sig[sig] += 1
             if per_sig[sig] > 2:
                 continue
             ctx.violation(sig, f"scenario {name}: {what}", f"{sig.split(':')[1]}-{name}.jsonl", replay_text(ops, header, first, last))
+    # chunkTransactionList on generated size lists: the REAL marshalled size of every multi-transaction chunk is within the limit
+    n_chunk = 0
+    for l in ctx.read_lines(os.path.join(out, "oracle.jsonl")):
+        if '"kind":"chunk"' not in l:
+            continue
+        c = json.loads(l)
+        n_chunk += 1
+        if c["oversize"]:
+            n_bad += 1
+            per_sig["chunk"] += 1
+            if per_sig["chunk"] <= 2:
+                ctx.violation("C07:transaction-list-chunk-exceeds-grpc-limit", f"chunkTransactionList(limit {c['maxmsg']}) on transactions [count,len(Data),len(Payload)]={c['runs']} "
+                              f"produced {c['chunks']} chunks of which these marshal to more than the limit (chunk:txs=bytes): {c['oversize'][:4]}",
+                              f"chunk-{c['op']}.jsonl", ops[c["op"]])
+    ctx.cov["chunk_size_lists"] = n_chunk
     # order / digest violations flagged by the canonicaliser or the model driver
     for i, l in enumerate(impl):
         if "MISMATCH-" in l:
@@ -145,7 +165,7 @@ def run(ctx):
             ctx.violation("C07:list-reply-not-clock-sorted", "TransactionList reply to a list query is not a clock-sorted permutation of the requested present transactions",
                           "list-order.jsonl", replay_text(ops, header, sl[0][0], i) if sl else ops[i])
             break
-    ctx.oblige("oracle:never-shrink,never-invalid,union-at-quiescence,quiet-when-equal(impl)", n_bad == 0, f"{n_bad} scenario problems")
+    ctx.oblige("oracle:never-shrink,never-invalid,union-at-quiescence,quiet-when-equal,every-message-within-grpc-limit(impl)", n_bad == 0, f"{n_bad} scenario problems")
     # ---- edge counters: the code edges the seeds hit must OCCUR in the run (a generator that stops reaching them is a hole)
     edges = Counter()
     ps = int(facts.get("pageSize", 512)) if facts else 512
@@ -225,4 +245,4 @@ def run(ctx):
                                      "protocol_edges_reached": dict(edges),
                                      "decode_contract_histogram(bucket:[attempts,success,exact])": dc,
                                      "universe_transactions": sum(1 for l in ops if '"op":"tx"' in l[:200])}
-    ctx.cov["samples"] = [steps[1][:300] if len(steps) > 1 else "", impl[len(ops) - len(steps) + 1][:300] if impl else ""]
+    ctx.cov["samples"] = [steps[1][:300] if len(steps) > 1 else "", impl[len(ops) - len(steps) + 1][:300] if len(impl) > len(ops) - len(steps) + 1 else ""]
